@@ -848,6 +848,8 @@ def sig_tu(decls):
         tn = e.top
         out.append('%s sobj%d;' % (tn, i))
         out.append('%s ret%d (void) { return sobj%d; }' % (tn, i, i))
+        # a c2m caller receiving the aggregate: the moves after the call show how the returned pieces are stored
+        out.append('extern %s ext%d (void); %s sdst%d; void cal%d (void) { sdst%d = ext%d (); }' % (tn, i, tn, i, i, i, i))
         for j, (nl, nd) in enumerate(PRE_ARGS):
             # the aggregate, then two one-register structs: they must still get a register the aggregate left
             ps = ['long l%d' % k for k in range(nl)] + ['double d%d' % k for k in range(nd)] + [
@@ -859,6 +861,83 @@ def sig_tu(decls):
         else:
             out.append('void mix%d (%s) { }' % (i, ', '.join(ps)))
     return '\n'.join(out) + '\n'
+
+
+def mir_functions(mir_text):
+    """{name: (header operands text, [instruction lines])} of a c2m -S module"""
+    import re
+    fs, cur = {}, None
+    for l in mir_text.split('\n'):
+        m = re.match(r'^(\w+):\s+func[ \t]*(.*)$', l)
+        if m:
+            cur = (m.group(2), [])
+            fs[m.group(1)] = cur
+        elif cur is not None:
+            w = l.strip()
+            if w == 'endfunc':
+                cur = None
+            elif w and not w.startswith('#') and not w.startswith('local'):
+                cur[1].append(w)
+    return fs
+
+
+_MEM = r'(u?i8|u?i16|u?i32|u?i64|f|d|ld):(-?\d+)?\(([^)]*)\)'
+
+
+def _acc(pieces):
+    if not pieces or any(p is None for p in pieces):
+        return None
+    d0 = pieces[0][1]
+    return ','.join('%s@%d' % (t.replace('u', ''), d - d0) for t, d in pieces)
+
+
+def ret_accesses(fn):
+    """callee side (target_add_ret_ops): the memory operand each returned register was loaded from, as
+    '<mir type>@<offset>,...' (offsets relative to the first piece), 'M' for a result through the hidden pointer"""
+    import re
+    hdr, insns = fn
+    if 'rblk:' in hdr:
+        return 'M'
+    rets = [x for x in insns if re.match(r'ret\b', x)]
+    if not rets:
+        return None
+    ops = [o.strip() for o in rets[-1][3:].split(',') if o.strip()]
+    upto = insns[:len(insns) - insns[::-1].index(rets[-1]) - 1]
+    pieces = []
+    for o in ops:
+        found = None
+        for x in reversed(upto):
+            m = re.match(r'(?:mov|fmov|dmov|ldmov)\s+%s\s*,\s*%s\s*$' % (re.escape(o), _MEM), x)
+            if m:
+                found = (m.group(1), int(m.group(2) or 0))
+                break
+        pieces.append(found)
+    return _acc(pieces)
+
+
+def call_accesses(fn, callee):
+    """caller side (target_gen_post_call_res_code): the memory operand each result register of the call of
+    `callee` is stored to; same form as ret_accesses"""
+    import re
+    hdr, insns = fn
+    for k, x in enumerate(insns):
+        m = re.match(r'call\s+\w+\s*,\s*%s\b(.*)$' % re.escape(callee), x)
+        if not m:
+            continue
+        if 'rblk:' in m.group(1):
+            return 'M'
+        ops = [o.strip() for o in m.group(1).split(',') if o.strip()]
+        pieces = []
+        for o in ops:
+            found = None
+            for y in insns[k + 1:]:
+                mm = re.match(r'(?:mov|fmov|dmov|ldmov)\s+%s\s*,\s*%s\s*$' % (_MEM, re.escape(o)), y)
+                if mm:
+                    found = (mm.group(1), int(mm.group(2) or 0))
+                    break
+            pieces.append(found)
+        return _acc(pieces)
+    return None
 
 
 def parse_sigs(mir_text):
